@@ -56,6 +56,8 @@ func Opts(names []string, vars map[string]any, consts map[string]any) []genql.Qu
 			out = append(out, genql.PostgresEscapingDialect())
 		case "arr":
 			out = append(out, genql.IdomaticArrays())
+		case "errhandler":
+			out = append(out, genql.UnReportedErrors(func(error) {}))
 		}
 	}
 	if vars != nil {
